@@ -46,5 +46,16 @@ def numFnHolds (f : RoundFn) (k : CmpK) (n : Int) (cell : Option Int) : V3 :=
   | none => .unk
   | some q => V3.ofBool (cmpInt k (roundQ f q) n)
 
+/-! ### KNOWN FINDING C01-sqlite-round-negative: what `TRUNC(x + 0.5)` (SQLite dialect, sql/sqlite.py `sqlfunc_round`) computes -/
+/-- truncation toward zero of (q + 2) / 4, i.e. TRUNC(q/4 + 0.5) -/
+def truncShiftQ (q : Int) : Int := if 0 ≤ q + 2 then (q + 2) / 4 else -((-(q + 2)) / 4)
+/-- right for every x > −0.5 … -/
+theorem kf_trunc_shift_ok (q : Int) (h : -1 ≤ q) : truncShiftQ q = roundQ .round q := by
+  simp only [truncShiftQ, roundQ]; split <;> split <;> omega
+/-- … and exactly one too high for every x ≤ −0.5 -/
+theorem kf_trunc_shift_wrong (q : Int) (h : q ≤ -2) : truncShiftQ q = roundQ .round q + 1 := by
+  simp only [truncShiftQ, roundQ]; split <;> split <;> omega
+example : truncShiftQ (-5) = 0 ∧ roundQ .round (-5) = -1 := by decide
+
 example : roundQ .ceiling (-6) = -1 ∧ roundQ .floor (-6) = -2 ∧ roundQ .round (-6) = -2 ∧ roundQ .round 6 = 2 ∧ roundQ .ceiling (-2) = 0 := by decide
 end OQ.Spec
